@@ -127,6 +127,7 @@ def finish(rep, results, tw, ps, tier, extra=None):
                 rep.error(f"solver counterexample did not reproduce on the real code: {r['prog']!r}: {b['what']}")
         if len(samples) < 8 and r['paths'] and len(r['prog']) > 12:
             samples.append({'program': r['prog'], 'layout': r['layout'], 'joint_paths': r['paths'], 'queries': r['stats']})
+    rep.coverage['slowest_cases'] = sorted(((r.get('wall_s', 0), r.get('prog', '')[:120], r.get('layout')) for r in results if 'harness_error' not in r), reverse=True)[:5]
     twin_rep = []
     for t in tw:
         hit = 'harness_error' not in t and any(b['replayed'] for b in t['bad'])
@@ -149,7 +150,7 @@ def finish(rep, results, tw, ps, tier, extra=None):
         'functions_encoded': ['generated Model._evaluate (from fsic.parser.parse_model + build_model, regenerated per run)',
                               'Symbol.equation text (executed as Python)'],
         'bounds': {'expression_nodes_exhaustive': 3 if tier == 'quick' else '3 (full vocabulary) / 4 (reduced vocabulary)',
-                   'sampled_programs': len(ps['sampled']), 'equations_per_program': '1..5',
+                   'sampled_programs': len(ps.get('sampled', [])), 'equations_per_program': '1..5',
                    'cells_t_L': 'unbounded (z3 Array Int->Float64, Int t, Int L; both spellings of t)'},
         'symbolic_inputs': ['every cell of every series', 'period position t', 'span length L'],
         'stubs': {'series': 'symx.zseries.ZSeries (z3 array with NumPy 1-D index semantics)',
